@@ -184,6 +184,8 @@ def check(chk):
     _events_switched_on(chk, repo)
     _send_all(chk, repo)
     _player_objects_not_shared(chk, repo)
+    _bonus_starts_from_zero(chk, repo)
+    _player_numbered_and_listed_in_one_step(chk, repo)
     _score_queue_adds(chk, repo)
     _remembered_selection(chk, repo, md, super_chain)
     _restart_list(chk, repo)
@@ -624,6 +626,47 @@ def _player_objects_not_shared(chk, repo):
     chk.floor("FRESH-11", 3)
 
 
+def _bonus_starts_from_zero(chk, repo):
+    """BONUS-11: a player's end-of-ball bonus counts his own entries only: every bonus run starts its running total from zero - in
+    mode_start, on every path that goes on to count (posts bonus_start / arms the first item).  The Bonus object lives from ball to ball and
+    from player to player: a total zeroed only when a run *finishes* hands the subtotal of an interrupted run (mode stopped from outside)
+    to the next player, multiplied by his multiplier."""
+    BN = "mpf/modes/bonus/code/bonus.py"
+    f = repo.func(BN, "Bonus.mode_start")
+    chk.analysed(f)
+    cfg = f.cfg()
+    zero = [n.id for n in cfg.nodes if n.kind == "stmt" and isinstance(n.ast, ast.Assign) and src(n.ast.targets[0]) == "self.bonus_score" and const_value(n.ast.value) == 0]
+    runs = [n for n, c in cfg.calls_named("post") if c.args and const_value(c.args[0]) == "bonus_start"] + \
+           [n for n, c in cfg.calls_named("add", "reset") if "delay" in src(c.func.value) and "_bonus_next_item" in src(c)]
+    chk.need(runs, "BONUS-11", "Bonus.mode_start starts the count (bonus_start / first item)", f)
+    for n in runs:
+        w = cfg.path_avoiding(cfg.entry.id, [n.id], zero, ignore_exc=True) if zero else [cfg.entry.id, n.id]
+        chk.ob("BONUS-11", "every bonus run starts its total from zero before it counts", w is None, f.where(n.ast), construct=f.ident,
+               detail="the total is carried in the mode object across balls and players", text="bonus total zeroed at start",
+               path=cfg.fmt_path(w, f) if w and len(w) > 1 else None, nontrivial=True)
+
+
+def _player_numbered_and_listed_in_one_step(chk, repo):
+    """NUM-11: every player has a number of his own (his events and his persisted state are addressed by it).  The number is the length of
+    the player list, and the new player joins the list in the same synchronous step that read the length - before the player_adding queue
+    event, which other handlers may hold while a second add request is processed."""
+    GMF = "mpf/modes/game/code/game.py"
+    f = repo.func(GMF, "Game._player_add_request_complete")
+    chk.analysed(f)
+    cfg = f.cfg()
+    mk = [n for n in cfg.nodes if n.kind == "stmt" and isinstance(n.ast, ast.Assign) and isinstance(n.ast.value, ast.Call) and call_attr(n.ast.value) == "Player"]
+    ap = [n for n, c in cfg.calls_named("append") if src(c.func.value) == "self.player_list"]
+    chk.need(mk, "NUM-11", "Game._player_add_request_complete creates the player", f)
+    c = mk[0].ast.value
+    chk.ob("NUM-11", "the new player's index is the current length of the player list", len(c.args) == 2 and src(c.args[1]).replace(" ", "") == "len(self.player_list)", f.where(c),
+           detail=src(c), construct=f.ident, text="player index source")
+    waits = [n.id for n, c_ in cfg.calls_named("post_queue", "post_queue_async")] + [n.id for n in cfg.nodes if n.kind in ("stmt", "test") and n.has_await()]
+    ok = bool(ap) and cfg.must_pass(mk[0].id, [n.id for n in ap] ) is None and \
+        all(cfg.path_avoiding(mk[0].id, [w], [n.id for n in ap], ignore_exc=True) is None for w in waits)
+    chk.ob("NUM-11", "the player joins the list in the step that numbered him (before any queue event or await)", ok, f.where(mk[0].ast), construct=f.ident,
+           detail="a second request processed while player_adding is held reads the same length: two players with one number", text="player listed with his number")
+
+
 def _player_addressing(chk, repo):
     """IDX-1: which player a write or a read addresses.  Config player numbers are 1-based, player_list is 0-based; without a
     number the current player is meant; machine actions never touch a player; both player-placeholder access paths agree."""
@@ -694,6 +737,8 @@ def battery():
     from sa.battery import M
     LBF = "mpf/devices/logic_blocks.py"
     return [
+        M("player listed only after player_adding has cleared", "mpf/modes/game/code/game.py", "        self.player_list.append(player)\n", "", "NUM-11"),
+        M("bonus total zeroed only when a run finishes", "mpf/modes/bonus/code/bonus.py", "        self.bonus_score = 0\n        self.bonus_iterator = iter(self.bonus_entries)", "        self.bonus_iterator = iter(self.bonus_entries)", "BONUS-11"),
         M("per-player randomizer is a shallow copy of a shared one", "mpf/config_players/random_event_player.py", "                self.machine.game.player[key] = Randomizer(\n                    settings['events'], self.machine, template_type=\"event\")", "                import copy\n                self.machine.game.player[key] = copy.copy(self._machine_wide_dict.setdefault(key, Randomizer(\n                    settings['events'], self.machine, template_type=\"event\")))", "FRESH-11"),
         M("mode delays survive the stop", "mpf/core/mode.py", "        self._remove_mode_switch_handlers()\n\n        self.delay.clear()\n", "        self._remove_mode_switch_handlers()\n", "PAIR-12"),
         M("bonus writes vars directly", "mpf/modes/bonus/code/bonus.py", "                self.player[entry['player_score_entry']] = 0", "                self.player.vars[entry['player_score_entry']] = 0", "OWN-13"),
@@ -701,7 +746,7 @@ def battery():
         M("prev read after store", PL, "        self.vars[name] = value\n\n        try:\n            change = value - prev_value", "        self.vars[name] = value\n        prev_value = self.vars[name]\n\n        try:\n            change = value - prev_value", "DOM-21"),
         M("change sign flipped", PL, "            change = value - prev_value", "            change = prev_value - value", "DOM-21"),
         M("player_num from index", PL, "self._send_variable_event(name, self.vars[name], prev_value, change, self.vars['number'], **kwargs)", "self._send_variable_event(name, self.vars[name], prev_value, change, self.vars['index'], **kwargs)", "DOM-21"),
-        M("persisted block keeps state ref", LBF, "        super().device_removed_from_mode(mode)\n        self._state = None", "        super().device_removed_from_mode(mode)\n        if not self.config['persist_state']:\n            self._state = None", "PAIR-12"),
+        M("persisted block keeps state ref", LBF, "        self.delay.remove(\"timeout\")\n        self._state = None", "        self.delay.remove(\"timeout\")\n        if not self.config['persist_state']:\n            self._state = None", "PAIR-12"),
         M("mixin keeps player", "mpf/core/enable_disable_mixin.py", "        self._disable()\n        self.player = None\n        self._enabled = None", "        self._disable()\n        self._enabled = None", "PAIR-12"),
         M("extra ball keeps player", "mpf/devices/extra_ball.py", "        del mode\n        self.player = None", "        del mode", "PAIR-12"),
         M("timer stop only when running", "mpf/devices/timer.py", "        \"\"\"Stop this timer and also removes all the control events.\"\"\"\n        self.stop()", "        \"\"\"Stop this timer and also removes all the control events.\"\"\"\n        if self.running:\n            self.stop()", "PAIR-12"),
